@@ -355,7 +355,10 @@ class SharedConfigSpec(Spec):
     prop = 'C03'
     name = 'shared-config'
     title = 'flags set by one doctest vs the traceback want of the next (shared default options)'
-    A_DIRS = ['+IGNORE_EXCEPTION_DETAIL', '+IGNORE_WANT', '-ELLIPSIS', '+SKIP']
+    # 'same:…': doctest A is doctest B itself (same exception, same want) under that block directive; 'same-after:…': B runs
+    # first without, then under the directive (the judged run is the second one)
+    A_DIRS = ['+IGNORE_EXCEPTION_DETAIL', '+IGNORE_WANT', '-ELLIPSIS', '+SKIP', 'same:-ELLIPSIS', 'same-after:-ELLIPSIS',
+              'same:+IGNORE_EXCEPTION_DETAIL', 'same-after:+IGNORE_EXCEPTION_DETAIL']
     B_WANTS = ['wrongmsg', 'ellmsg', 'nontb', 'exact', 'wrongtype']
     CONFIGS = [None, {'ELLIPSIS': True}, {'NORMALIZE_WHITESPACE': True, 'IGNORE_EXCEPTION_DETAIL': False}]
     max_len = 3
@@ -377,9 +380,14 @@ class SharedConfigSpec(Spec):
         import copy
         from xdoctest.doctest_example import DocTest
         c, a, bw = hist
-        ta = '>>> # xdoctest: %s\n>>> raise ValueError("a msg")\nTraceback (most recent call last):\nValueError: a msg\n' % a
         cfg = {'cls': 'builtin', 'msg': 'plain', 'src': 'raise', 'want': bw, 'flags': (), 'pos': 'only', 'fplace': 'block'}
         tb = build(cfg)['text']
+        if a.startswith('same:'):
+            ta = '>>> # xdoctest: %s\n%s' % (a.split(':', 1)[1], tb)
+        elif a.startswith('same-after:'):
+            ta, tb = tb, '>>> # xdoctest: %s\n%s' % (a.split(':', 1)[1], tb)
+        else:
+            ta = '>>> # xdoctest: %s\n>>> raise ValueError("a msg")\nTraceback (most recent call last):\nValueError: a msg\n' % a
 
         def run_b(shared, first):
             out = []
@@ -398,7 +406,10 @@ class SharedConfigSpec(Spec):
                         raise
                     out.append(('raised', type(ex).__name__))
             return out[-1]
+        from xmc import core as xcore
         alone = run_b(copy.deepcopy(self.CONFIGS[c]), False)
+        # the baseline run must not warm anything the library may remember per process
+        xcore.reset_library_state()
         shared = copy.deepcopy(self.CONFIGS[c])
         after = run_b(shared, True)
         atoms = []
